@@ -201,6 +201,9 @@ def run_unit(args):
         mod = _load_check(modname)
         sub = {s.name: s for s in mod.SUBPROPS}[subname]
         ctx = Ctx(mod.PROPERTY_ID, subname)
+        if os.environ.get("VERIF_KWCOV"):      # diagnostic keyword-coverage probe, see vlib/kwcov.py
+            from vlib import kwcov
+            kwcov.start()
         st = {"fail": None, "error": None}
         digests = set()
         samples = []
@@ -313,6 +316,9 @@ def run_unit(args):
         res["skips"] = dict(ctx.skips)
     except BaseException:  # harness failure of any kind
         res["error"] = traceback.format_exc()
+    if os.environ.get("VERIF_KWCOV"):
+        from vlib import kwcov
+        kwcov.stop_and_dump(os.environ["VERIF_KWCOV"], "%s.%s.%d" % (modname.split(".")[-1], subname, shard))
     res["wall"] = time.time() - t0
     return res
 
